@@ -164,6 +164,45 @@ impl AagDoc {
         }
         s.into_bytes()
     }
+    /// like render, with (line, first column, last column) of every number in the order of `numbers()`
+    fn render_pos(&self) -> (Vec<u8>, Vec<(usize, usize, usize)>) {
+        let mut s = String::from("aag");
+        let mut pos = vec![];
+        let mut line = 1usize;
+        let mut col = 4usize;
+        let mut put = |s: &mut String, x: &str, sep: &str, line: &mut usize, col: &mut usize| {
+            s.push_str(sep);
+            if sep == "\n" {
+                *line += 1;
+                *col = 1;
+            } else {
+                *col += sep.len();
+            }
+            pos.push((*line, *col, *col + x.len() - 1));
+            s.push_str(x);
+            *col += x.len();
+        };
+        for x in &self.header {
+            put(&mut s, x, " ", &mut line, &mut col);
+        }
+        for x in &self.inputs {
+            put(&mut s, x, "\n", &mut line, &mut col);
+        }
+        for (a, b) in &self.latches {
+            put(&mut s, a, "\n", &mut line, &mut col);
+            put(&mut s, b, " ", &mut line, &mut col);
+        }
+        for x in &self.outputs {
+            put(&mut s, x, "\n", &mut line, &mut col);
+        }
+        for g in &self.gates {
+            put(&mut s, &g[0], "\n", &mut line, &mut col);
+            put(&mut s, &g[1], " ", &mut line, &mut col);
+            put(&mut s, &g[2], " ", &mut line, &mut col);
+        }
+        s.push('\n');
+        (s.into_bytes(), pos)
+    }
     /// Some(expected Debug text pieces) when the document respects every limit of C06 for the literal type u32
     fn valid(&self) -> bool {
         let n = |s: &String| s.parse::<u128>().unwrap_or(u128::MAX);
@@ -380,6 +419,32 @@ pub fn suite(which: &str, prop: &str, _tier: &str, _seed: u64) -> Report {
                             } else if o.items != vec![format!("{:?}", d2.value())] {
                                 rep.fail("C06 accepted numbers are the numbers written (ascii AIGER)", show(&t), a, format!("expected {:?}, got {:?}", d2.value(), o.items));
                             }
+                        }
+                    }
+                }
+            }
+        }
+    }
+    if (all || prop == "C08") && which == "aag" {
+        // one number token replaced by something that is no number: the error is reported on that token
+        for (di, d) in aag_docs().iter().enumerate() {
+            let positions = d.clone().numbers().len();
+            for pos in 0..positions {
+                for (bi, bad) in ["x", "@@", "1x", "-1"].iter().enumerate() {
+                    let mut d2 = d.clone();
+                    *d2.numbers()[pos] = bad.to_string();
+                    let (t, where_) = d2.render_pos();
+                    let (line, c0, c1) = where_[pos];
+                    rep.inputs += 1;
+                    rep.nontrivial += 1;
+                    for &sc in scheds.iter() {
+                        let o = run(aag, &t, sc);
+                        rep.runs += 1;
+                        let ok = matches!(&o.end, End::Syntax { line: el, column: ec, .. } if *el == line && *ec >= c0 && *ec <= c1);
+                        if !ok {
+                            let mut a = vec![st("c08"), di.to_string(), pos.to_string(), bi.to_string()];
+                            a.extend(sc.args());
+                            rep.fail("C08 a corrupted token is reported at its own line and column (ascii AIGER)", show(&t), a, format!("token at line {} columns {}..{} corrupted to {:?}: got {:?}", line, c0, c1, bad, o.end));
                         }
                     }
                 }
